@@ -1,9 +1,9 @@
-CONSTANTS KindsC <- K3
- NSeg = 3
+CONSTANTS KindsC <- K4
+ NSeg = 4
  MapFirstC = 0
  WorkersC = 2
  StartSegC = 0
- CacheMode = "partials"
+ CacheMode = "empty"
 SPECIFICATION Spec
 INVARIANT NoInvalidState
 INVARIANT JobInputsComplete
